@@ -278,6 +278,39 @@ def main(argv):
             if set(srv.store.items) != {wk1, wk2}:
                 ctx.violation("the prefix was not applied on the wire to a key that starts with the prefix bytes", dict(case, server_keys=sorted(map(hx, srv.store.items))),
                               tags=["prefix-namespace"])
+    # 6. the namespace holds over a history on one client: administrative calls (whose arguments are not keys and carry no prefix) and
+    #    earlier uses of the same string do not change where a key is stored or found; a second client with the same prefix sees the value
+    for pfx in (b"ns:", b"p"):
+        for word in ("items", "64", b"slabs", "settings"):
+            for pre in ("stats", "cache_memlimit", "get-first", "none"):
+                srv, world, c = mk(pfx=pfx)
+                case = {"prefix": hx(pfx), "key": repr(word), "earlier_call": pre}
+                ctx.case(("history-namespace", pfx, repr(word), pre))
+                ctx.count("prefix-namespace-histories")
+                txt = word.decode() if isinstance(word, bytes) else word
+                if pre == "cache_memlimit" and not txt.isdigit():
+                    continue
+                try:
+                    if pre == "stats":
+                        c.stats(word)
+                    elif pre == "cache_memlimit":
+                        c.cache_memlimit(int(txt))
+                    elif pre == "get-first":
+                        c.get(word)
+                except Exception:
+                    pass            # the server may not know that stats section: irrelevant here
+                try:
+                    c.set(word, b"the-value", noreply=False)
+                    got = c.get(word)
+                    c2 = Client(("h", 1), socket_module=FakeSocketModule(world), key_prefix=pfx, default_noreply=False)
+                    got2 = c2.get(word)
+                except Exception as e:
+                    ctx.violation("store/fetch raised after an administrative call", dict(case, error=repr(e)[:80]), tags=["prefix-namespace", "history"])
+                    continue
+                wk = pfx + (word if isinstance(word, bytes) else word.encode())
+                if got != b"the-value" or got2 != b"the-value" or set(srv.store.items) != {wk}:
+                    ctx.violation("after an earlier call on the same client a key was not stored / found under prefix+key",
+                                  dict(case, got=repr(got), other_client_got=repr(got2), server_keys=sorted(map(hx, srv.store.items)), want=hx(wk)), tags=["prefix-namespace", "history"])
     # Lean model comparison (default serde cases)
     if ctx.lean.build_ok:
         outs = ctx.driver.batch(lines)
